@@ -461,6 +461,20 @@ package leveldb
 //@     assert [C04,C07:current-switched-before-old-manifest-removed] err == nil && calls("storage.Storage.SetMeta") > old(calls("storage.Storage.SetMeta"))
 //@   ensures [C04,C08:no-switch-no-change] calls("storage.Storage.SetMeta") == old(calls("storage.Storage.SetMeta")) ==> (err != nil && s.manifest == old(s.manifest) && s.manifestWriter == old(s.manifestWriter) && s.manifestFd.Num == old(s.manifestFd.Num) && s.stSeqNum == old(s.stSeqNum) && s.stJournalNum == old(s.stJournalNum))
 
+// C08 / C11: once the pointer names the new manifest the commit has taken effect - the record is what the next open
+// will read - so it is reported as a success; a failure to remove the OLD manifest afterwards does not undo it (F18:
+// it used to be returned as the commit's error, the caller discarded the "failed" transaction and removed tables the
+// current manifest names).
+//@ ghost var gCurrentSwitched bool
+//@ func (*session).newManifest
+//@   props C08 C11
+//@   mode bv
+//@   at entry
+//@     ghost gCurrentSwitched = false
+//@   at call storage.Storage.SetMeta#1
+//@     ghost gCurrentSwitched = result == nil
+//@   ensures [C08,C11:a-manifest-that-became-current-is-a-commit-that-succeeded] gCurrentSwitched ==> err == nil
+
 // O4: the session state follows an appended record only after it is flushed and synced.
 //@ func (*session).flushManifest
 //@   props C04 C08
@@ -952,6 +966,14 @@ package leveldb
 //@   at before call (*session).reuseFileNum#*
 //@     assert [C07:file-number-is-given-back-only-after-the-file-was-removed] calls("storage.Storage.Remove") == old(calls("storage.Storage.Remove")) + 1
 //@     assert [C01,C11:blocks-cached-under-a-file-number-are-evicted-before-the-number-is-reused] t.blockCache == nil || calls("(*Cache).EvictNS") >= old(calls("(*Cache).EvictNS")) + 1
+
+// C07 / C11: a table writer's file handle is spent once Close was called on it, whatever Close returned: a second
+// Close (drop after a failed finish) must not fail on the spent handle and so keep the partial table from being
+// removed (F19).
+//@ func (*tWriter).close
+//@   props C07 C11 C08
+//@   safety off
+//@   ensures [C07,C08,C11:the-file-handle-is-spent-after-close-whatever-it-returned] w.w == nil
 
 // C07 (space is reclaimed): a version stays referenced - and every table it lists stays in storage - until its
 // reference is given back. Choosing the inputs of a compaction takes a reference on the current version; it is
